@@ -7,7 +7,8 @@ Clauses checked on the real code (ConditionalDistribution, DependenceFunction, G
   forward.<m>      pdf/cdf/icdf(x, g) bit-identical to an instance of the template family constructed with those values,
                    and equal to the documented family formula (1e-9)
   forward.sample   draw_sample(n, g, seed) bit-identical to the constructed instance's draw_sample(n, seed)
-  vector.<m>       one vectorised call over many (x, g) pairs = the pairs evaluated one at a time (1e-12 relative)
+  vector.<m>       one vectorised call over many (x, g) pairs = the pairs evaluated one at a time (1e-9 relative: round-off of the
+                   callables amplified near a location parameter)
   broadcast.<m>    (x vector, g scalar) and (x scalar, g vector) shapes as used by ISORM/HDC resp. IFORM
   depfun.*         DependenceFunction.__call__: defaults / explicit coefficients / wrong count -> ValueError;
                    chained function receives the bound function itself and follows its later re-parameterisation
@@ -23,6 +24,10 @@ from vf.rt._common_B import (FAM, ALL, MODELS, DEPF, Recorder, replay_with, clos
                              plain_dep, build_conditional, build_deps, build_model)
 
 METHODS = ("cdf", "pdf", "icdf")
+# vectorised vs one-at-a-time: numpy may evaluate the user's dependence callable (e.g. x**c) with a last-bit difference
+# between the array and the scalar path; near a location parameter (x - gamma small) this round-off is amplified by
+# |gamma| / (x - gamma) (up to ~1e6 at the quantiles used), hence 1e-9 relative instead of 1e-12
+VEC_RTOL = 1e-9
 
 
 def _dep_for(role, positive_given, variant):
@@ -182,13 +187,13 @@ def sc_cond(inp, rec):
             one = np.array([float(getattr(cd, m)(float(arg[k]), float(gs[k]))) for k in range(len(gs))])
             one_np = np.array([float(getattr(cd, m)(arg[k], gv[k])) for k in range(len(gs))])  # numpy scalars (ISORM path)
             ok_shape = vec.shape == (len(gs),)
-            ok1, j, _ = close(vec, one, 1e-12, 1e-300) if ok_shape else (False, 0, 0)
-            ok2, j2, _ = close(vec, one_np, 1e-12, 1e-300) if ok_shape else (False, 0, 0)
+            ok1, j, _ = close(vec, one, VEC_RTOL, 1e-300) if ok_shape else (False, 0, 0)
+            ok2, j2, _ = close(vec, one_np, VEC_RTOL, 1e-300) if ok_shape else (False, 0, 0)
             rec.check(ok_shape and ok1 and ok2, case, "many (x, g) pairs in one vectorised call = the pairs one at a time",
                       lambda: f"shape {vec.shape}; vectorised {vec!r} vs one-at-a-time {one!r}", inp)
             # lists for x
             vec_l = np.asarray(getattr(cd, m)([float(v) for v in arg], gv), dtype=float)
-            rec.check(close(vec_l, vec, 1e-12, 1e-300)[0], case + ".list", "list x with vector g gives the same numbers",
+            rec.check(close(vec_l, vec, VEC_RTOL, 1e-300)[0], case + ".list", "list x with vector g gives the same numbers",
                       lambda: f"{vec_l!r} vs {vec!r}", inp)
         except Exception as e:
             rec.check(False, case, f"vectorised {m}(x, g) succeeds", "raised " + last_line(e), inp)
@@ -201,13 +206,13 @@ def sc_cond(inp, rec):
             arg = ps if m == "icdf" else xs_per_g[0]
             a = np.asarray(getattr(cd, m)(arg, g0), dtype=float)  # x vector, g scalar
             b = np.array([float(getattr(cd, m)(float(t), g0)) for t in arg])
-            rec.check(a.shape == (len(arg),) and close(a, b, 1e-12, 1e-300)[0], case + ".xvec-gscalar",
+            rec.check(a.shape == (len(arg),) and close(a, b, VEC_RTOL, 1e-300)[0], case + ".xvec-gscalar",
                       "x vector with scalar g = element-wise evaluation", lambda: f"shape {a.shape}: {a!r} vs {b!r}", inp)
             t0 = float(arg[len(arg) // 2])
             if dependent:
                 c = np.asarray(getattr(cd, m)(t0, gv), dtype=float)  # x scalar, g vector
                 dd = np.array([float(getattr(cd, m)(t0, g)) for g in gs])
-                rec.check(c.shape == (len(gs),) and close(c, dd, 1e-12, 1e-300)[0], case + ".xscalar-gvec",
+                rec.check(c.shape == (len(gs),) and close(c, dd, VEC_RTOL, 1e-300)[0], case + ".xscalar-gvec",
                           "scalar x with vector g = element-wise evaluation", lambda: f"shape {c.shape}: {c!r} vs {dd!r}", inp)
         except Exception as e:
             rec.check(False, case, f"broadcast {m} succeeds", "raised " + last_line(e), inp)
@@ -348,18 +353,18 @@ def sc_model(inp, rec):
             got_q = np.asarray(model.conditional_icdf(p, i, x), dtype=float)
             if ci is not None:
                 got_c, got_q = got_c[rows], got_q[rows]
-            rec.check(close(got_c, exp_c, 1e-12, 1e-300)[0], case + "/conditional_cdf", "model.conditional_cdf (vectorised) = template with the row's parameters",
+            rec.check(close(got_c, exp_c, VEC_RTOL, 1e-300)[0], case + "/conditional_cdf", "model.conditional_cdf (vectorised) = template with the row's parameters",
                       lambda: f"{got_c[:3]!r} vs {exp_c[:3]!r}", inp)
-            rec.check(close(got_q, exp_q, 1e-12, 1e-300)[0], case + "/conditional_icdf", "model.conditional_icdf (vectorised, IFORM path) = template with the row's parameters",
+            rec.check(close(got_q, exp_q, VEC_RTOL, 1e-300)[0], case + "/conditional_icdf", "model.conditional_icdf (vectorised, IFORM path) = template with the row's parameters",
                       lambda: f"{got_q[:3]!r} vs {exp_q[:3]!r}", inp)
             if ci is not None:
                 # ISORM / HDC path: scalar p, scalar given (numpy scalars), one row at a time
                 one = np.array([float(dist.icdf(p[r], given=x[r, ci])) for r in rows])
-                rec.check(close(one, exp_q, 1e-12, 1e-300)[0] and close(one, got_q, 1e-12, 1e-300)[0], case + "/scalar-path",
+                rec.check(close(one, exp_q, VEC_RTOL, 1e-300)[0] and close(one, got_q, VEC_RTOL, 1e-300)[0], case + "/scalar-path",
                           "scalar path (ISORM/HDC) and vector path (IFORM) give the same numbers", lambda: f"{one[:3]!r} vs {got_q[:3]!r}", inp)
                 onep = np.array([float(dist.pdf(x[r, i], given=x[r, ci])) for r in rows])
                 vecp = np.asarray(dist.pdf(x[:, i], given=x[:, ci]), dtype=float)[rows]
-                rec.check(close(onep, vecp, 1e-12, 1e-300)[0], case + "/scalar-path.pdf", "pdf: scalar path = vector path", lambda: f"{onep[:3]!r} vs {vecp[:3]!r}", inp)
+                rec.check(close(onep, vecp, VEC_RTOL, 1e-300)[0], case + "/scalar-path.pdf", "pdf: scalar path = vector path", lambda: f"{onep[:3]!r} vs {vecp[:3]!r}", inp)
         except Exception as e:
             rec.check(False, case, "model dimension evaluates", "raised " + last_line(e), inp)
 
